@@ -24,6 +24,7 @@ var c19Stmts = []string{
 	"local function lo(p)\n  if p then\n    p = 1\n  end\n  while p do\n    p = nil\n  end\n  return p\nend",
 	"ta = {}\nfunction ta.f1() end\nfunction ta:m1() end", "tb = {}\nfunction tb.g1() end\nfunction tb.g2() end",
 	"local alpha, beta <const> = 4, 5", "local gamma <const>, delta <close> = 6, nil",
+	"zs = \"a\\z\n   b\"\nfunction afterz() end",
 }
 
 type c19Decl struct {
